@@ -342,7 +342,9 @@ func c19Judge(sc C19Scenario, solo, seq []string, obs *c19Obs, c *c19Case) *core
 	if len(obs.panics) > 0 {
 		return mk("no-interference", "panic", "no panic", strings.Join(obs.panics, " ; "))
 	}
-	if len(obs.conflicts) > 0 {
+	if len(obs.conflicts) > 0 && os.Getenv("VERIF_C19_SYNC") != "1" {
+		// (when the library itself uses sync / atomic an access pair may be
+		// ordered; then only the race-detector pass and the result comparison decide)
 		return mk("conflict-monitor", "package-variable-race:"+strings.SplitN(obs.conflicts[0], " ", 2)[0], "no package-level variable written by one thread and accessed by another", strings.Join(obs.conflicts, " ; "))
 	}
 	for i := range solo {
